@@ -60,7 +60,7 @@ fn all_families() -> Vec<Box<dyn Family>> {
 }
 
 fn all_families_base() -> Vec<Box<dyn Family>> {
-  vec![Box::new(c08::C08), Box::new(c18::C18), Box::new(c09::C09), Box::new(c12::C12), Box::new(thr_ops::C19Ops), Box::new(thr_ops::C19Subjects), Box::new(thr_ops::C11), Box::new(timed::C16), Box::new(timed::C15), Box::new(c01::C01), Box::new(c05::C05Seq), Box::new(c05::C05Thr), Box::new(c06::C06), Box::new(c06::C06Thr), Box::new(c17::C17), Box::new(c14::C14), Box::new(c14::C14Shared), Box::new(c14::C14Thr), Box::new(timed::C14Timed), Box::new(c10::C10), Box::new(c13::C13), Box::new(c13::C13Thr), Box::new(c13::C13ThrCold), Box::new(c13::C13Reg), Box::new(c03::C03), Box::new(c03::C03Rsg), Box::new(c04::C04Travel), Box::new(c04::C04Handlers), Box::new(c04::C04Inner),
+  vec![Box::new(c08::C08), Box::new(c18::C18), Box::new(c09::C09), Box::new(c12::C12), Box::new(thr_ops::C19Ops), Box::new(thr_ops::C19Subjects), Box::new(thr_ops::C11), Box::new(timed::C16), Box::new(timed::C15), Box::new(c01::C01), Box::new(c05::C05Seq), Box::new(c05::C05Thr), Box::new(c06::C06), Box::new(c06::C06Thr), Box::new(c17::C17), Box::new(c14::C14), Box::new(c14::C14Shared), Box::new(c14::C14Thr), Box::new(timed::C14Timed), Box::new(c10::C10), Box::new(c13::C13), Box::new(c13::C13Thr), Box::new(c13::C13ThrCold), Box::new(c13::C13Reg), Box::new(c03::C03), Box::new(c03::C03Rsg), Box::new(c04::C04Travel), Box::new(c04::C04Handlers), Box::new(c04::C04Inner { release: false }), Box::new(c04::C04Inner { release: true }),
     Box::new(Only { inner: Box::new(thr_ops::C11), name: "c03-amb-threads", pred: |w| w.s("op") == "amb" }),
     Box::new(Only { inner: Box::new(c12::C12), name: "c10-subjects-threads", pred: |_| true }),
     Box::new(Only { inner: Box::new(thr_ops::C19Ops), name: "c04-error-races-completion", pred: |_| true }),
@@ -122,7 +122,7 @@ fn spec_for(prop: &str) -> Option<CheckSpec> {
         FamilySpec { fam: Box::new(c04::C04Travel), quick_runs: 120_000, thorough_runs: 2_000_000 },
         FamilySpec { fam: Box::new(c04::C04Handlers), quick_runs: 200_000, thorough_runs: 3_000_000 },
         // the subscribers of the inner observables of window_with_count / group_by get the error too
-        FamilySpec { fam: Box::new(c04::C04Inner), quick_runs: 20_000, thorough_runs: 200_000 },
+        FamilySpec { fam: Box::new(c04::C04Inner { release: false }), quick_runs: 20_000, thorough_runs: 200_000 },
         // "exactly once, as the terminal event" also when the error races a completion from another
         // thread (source vs trigger, two inputs of a combinator): the C19 family, same contract
         FamilySpec { fam: Box::new(Only { inner: Box::new(thr_ops::C19Ops), name: "c04-error-races-completion", pred: |_| true }), quick_runs: 30_000, thorough_runs: 600_000 },
@@ -332,7 +332,11 @@ fn spec_for(prop: &str) -> Option<CheckSpec> {
         "the harness keeps only token-free copies of what it records".into(),
         "only subscriptions that have ended (terminal delivered or unsubscribe called) are judged".into(),
       ],
-      families: vec![FamilySpec { fam: Box::new(c17::C17), quick_runs: 300_000, thorough_runs: 5_000_000 }],
+      families: vec![
+        FamilySpec { fam: Box::new(c17::C17), quick_runs: 300_000, thorough_runs: 5_000_000 },
+        // the subscribers of the inner observables of window_with_count / group_by (not flattened)
+        FamilySpec { fam: Box::new(c04::C04Inner { release: true }), quick_runs: 20_000, thorough_runs: 200_000 },
+      ],
       quick_cap_s: 60,
       thorough_cap_s: 900,
     }),
